@@ -2,9 +2,9 @@
    that is proved: the record arena of src/hash_table.c and the reference counting of src/dict.c.
    Theorem statements only.  Models: HashTable.v (lyht_* as coded: hlists first/last, next chains,
    free list, used, resize states, uint32_t arithmetic), Dict.v (lydict_insert / _remove / _dup on top);
-   proofs: HashTableP.v, DictP.v.  Everything else C17 says (heap cells of the data and schema trees,
-   consumed-input rules of the API) is NOT modelled; it is searched by the Ownership oracle under
-   ASan/LSan (tools/props/C17.py).
+   proofs: HashTableP.v, DictP.v.  The ownership rules over the dictionary finite map (abstract model Own.v) are in
+   Properties_C17_own.v.  Everything else C17 says (which heap cells and strings a given call of the data / schema tree API
+   owns, consumed-input rules) is NOT modelled; it is searched by the Ownership oracle under ASan/LSan (tools/props/C17.py).
 
    Vocabulary.  [Rep vdef t cs fl]: representation invariant of a table t with its ghost witnesses
    cs = the chains of the buckets 0..size-1 (record indices in chain order) and fl = the free list:
